@@ -74,7 +74,7 @@ where
         )?;
     }
 
-    writeln!(writer, "    let url = \"{action}\";")?;
+    writeln!(writer, "    let url = \"{}\";", as_string_literal_content(action.as_str()))?;
     let helper = if operation.output.is_some() {
         "send_soap_request"
     } else {
